@@ -658,6 +658,15 @@ def exhaustive_seqdeath():
                         ops.append({'d1': 'dseq 1', 'd2': 'dseq 2', 'e': 'call 0 1 1 0', 'p': 'call 0 1 0 0'}[ev])
                     ops += ['release 2'] + (['release 1'] if pq else [])
                     segs.append(('xd-%d%d-p%d-%d%d-%s' % (qa, qb, pq, lo, hi, ''.join(x[0] if x[0] != 'd' else x[1] for x in perm)), ops))
+    # the same with an entry IN_SEQUENCE of all THREE sequence objects (three listing orders): every order of the three deaths and two calls
+    for (qa, qb) in ((1, 2), (2, 3), (3, 1)):
+        for (lo, hi) in ((1, 1), (1, 2)):
+            for perm in sorted(set(itertools.permutations(['d1', 'd2', 'd3', 'e', 'e']))):
+                ops = ['mock 0', 'seq 1', 'seq 2', 'seq 3', expect_line(2, 145, 0, p=((1, 1), (0, 0)), retv=200, lo=lo, hi=hi, q=(qa, qb))]
+                for ev in perm:
+                    ops.append({'d1': 'dseq 1', 'd2': 'dseq 2', 'd3': 'dseq 3', 'e': 'call 0 1 1 0'}[ev])
+                ops += ['release 2']
+                segs.append(('xd3-%d%d-%d%d-%s' % (qa, qb, lo, hi, ''.join(x[0] if x[0] != 'd' else x[1] for x in perm)), ops))
     return segs
 
 EXHAUSTIVE = {'C03': [exhaustive_bounds], 'C04': [exhaustive_teardown], 'C05': [exhaustive_sequences, exhaustive_seqmonitors, exhaustive_seqdeath],
